@@ -16,6 +16,7 @@ package region
 // for TLC (Trace_RegionClient).
 
 import (
+	"sync/atomic"
 	"context"
 	"encoding/json"
 	"fmt"
@@ -156,6 +157,75 @@ func TestVerifC18(t *testing.T) {
 			})
 			rep.Distinct++
 		}
+	}
+
+	// ---- A'. forced, in real time (the reader is held inside the connection's SetReadDeadline, i.e. under the client's mutex
+	// in the code as it is - that would stall a bubble): the reader has just counted the last outstanding response down to
+	// zero and is about to clear the deadline while another request is sent. Afterwards one request is outstanding: the
+	// deadline must be armed, and a silent server must be detected (the TLC counter-example of MC_RegionClient_c18_nonatomicdown).
+	for _, batched := range []bool{false, true} {
+		name := fmt.Sprintf("A2/clear-deadline-races-with-next-send/batched=%v", batched)
+		func() {
+			rt := 400 * time.Millisecond
+			var hold atomic.Bool
+			held, release := make(chan struct{}), make(chan struct{})
+			hook := func(op verifsim.Op) *verifsim.Fault {
+				if op.Kind == verifsim.OpReadDeadline && op.Time.IsZero() && hold.CompareAndSwap(true, false) {
+					close(held)
+					<-release
+				}
+				return nil
+			}
+			opts := rcOpts{queueSize: 1, readTimeout: rt, hook: hook}
+			if batched {
+				opts = rcOpts{queueSize: 2, flushInterval: time.Millisecond, readTimeout: rt, hook: hook}
+			}
+			env := newRCEnv(opts)
+			c1 := env.newCall("r1", "get", batched)
+			env.goQueue(c1)
+			var req *verifsim.Request
+			select {
+			case req = <-env.reqs:
+			case <-time.After(5 * time.Second):
+				rep.bad("harness:a2", "%s: the first request never reached the server", name)
+				return
+			}
+			time.Sleep(20 * time.Millisecond) // the sender is through inFlightUp
+			hold.Store(true)
+			if batched {
+				env.respondMulti(req, multiPlan{})
+			} else {
+				env.respondOK(req, 1, false)
+			}
+			select {
+			case <-held:
+			case <-time.After(5 * time.Second):
+				rep.bad("harness:a2", "%s: the reader never cleared the deadline", name)
+				return
+			}
+			c2 := env.newCall("r2", "get", batched)
+			env.goQueue(c2) // written; its inFlightUp waits for the mutex (or, without one, arms the deadline right away)
+			time.Sleep(100 * time.Millisecond)
+			close(release)
+			time.Sleep(100 * time.Millisecond)
+			select {
+			case <-env.reqs: // r2 is at the server, which stays silent
+			default:
+			}
+			env.quiesce() // r2 outstanding: the deadline must be armed
+			t0 := time.Now()
+			for time.Since(t0) < 10*rt && c2.count() == 0 {
+				time.Sleep(10 * time.Millisecond)
+			}
+			if c2.count() == 0 {
+				rep.bad("silent-server-not-detected", "%s: r2 is outstanding on a silent server and was not failed after %v (read timeout %v)", name, time.Since(t0), rt)
+			}
+			o.flush(name, env)
+			env.c.Close()
+			env.srv.Close()
+			close(env.stop)
+		}()
+		rep.Distinct++
 	}
 
 	// ---- B. silent server
